@@ -88,7 +88,20 @@ def recipes : List Recipe := [
   ⟨"accept_ParameterNode", "V_PAR", [(800, "V_VAL")]⟩,
   ⟨"accept_FunctionInvocationNode", "V_FNV", [(801, "V_VAL"), (827, "S_SYNC")]⟩,
   ⟨"accept_BridgeInvocationNode", "V_BRV", [(801, "V_VAL"), (828, "S_BRG")]⟩,
-  ⟨"accept_InstanceInvocationNode / accept_ClassInvocationNode", "V_TRV", [(801, "V_VAL"), (829, "O_TFR")]⟩
+  ⟨"accept_InstanceInvocationNode / accept_ClassInvocationNode", "V_TRV", [(801, "V_VAL"), (829, "O_TFR")]⟩,
+  ⟨"e_gsme / accept_GenerateClassEventNode", "E_ESS", [(603, "ACT_SMT"), (701, "E_GES")]⟩,
+  ⟨"e_csme", "E_ESS", [(603, "ACT_SMT"), (701, "E_CES")]⟩,
+  ⟨"e_gsme / accept_GenerateClassEventNode", "E_GES", [(701, "E_ESS"), (703, "E_GSME")]⟩,
+  ⟨"e_gsme / accept_GenerateClassEventNode", "E_GSME", [(703, "E_GES"), (707, "SM_EVT")]⟩,
+  ⟨"accept_GenerateInstanceEventNode", "E_GEN", [(705, "E_GSME"), (712, "V_VAR")]⟩,
+  ⟨"accept_GenerateClassEventNode", "E_GAR", [(705, "E_GSME")]⟩,
+  ⟨"accept_GenerateCreatorEventNode", "E_GEC", [(705, "E_GSME")]⟩,
+  ⟨"e_csme", "E_CES", [(701, "E_ESS"), (702, "E_CSME"), (710, "V_VAR")]⟩,
+  ⟨"e_csme", "E_CSME", [(702, "E_CES"), (706, "SM_EVT")]⟩,
+  ⟨"accept_CreateInstanceEventNode", "E_CEI", [(704, "E_CSME"), (711, "V_VAR")]⟩,
+  ⟨"accept_CreateClassEventNode", "E_CEA", [(704, "E_CSME")]⟩,
+  ⟨"accept_CreateCreatorEventNode", "E_CEC", [(704, "E_CSME")]⟩,
+  ⟨"accept_GeneratePreexistingNode", "E_GPR", [(603, "ACT_SMT"), (714, "V_VAL")]⟩
 ]
 
 /-- the association end a link `(rel, partner)` of an instance of `cls` uses: the multiplicity the schema gives
